@@ -55,6 +55,9 @@ func zzC09_PruneRun() {
 		return
 	}
 	zzReach("applied")
+	if zzI4Holds(g) {
+		zzAssert(zzI4Holds(g2), "C14/prune: after prune every surviving task's epic reference still names a live epic")
+	}
 	for k, t := range g.Tasks {
 		post := g2.Tasks[k]
 		_, tomb := g2.Tombstones[k]
